@@ -68,7 +68,7 @@ template<class T, class C> struct KllFam {
   }
   static uint64_t retained_bound(const Sk& s, uint64_t n) { return kll_helper::compute_total_capacity(s.k_, s.m_, kll_helper::ub_on_num_levels(n)); }
   // the published error must be that of the smallest k that contributed compacted data
-  static void check_published_error(const Sk& s, int min_k, mc::Ctx& c) { for (int pmf = 0; pmf < 2; ++pmf) c.eq("published-error-is-for-smallest-contributing-k", s.get_normalized_rank_error(pmf == 1), Sk::get_normalized_rank_error((uint16_t)min_k, pmf == 1)); }
+  static void check_published_error(const Sk& s, int min_k, const std::vector<T>&, const std::vector<T>&, mc::Ctx& c) { for (int pmf = 0; pmf < 2; ++pmf) c.eq("published-error-is-for-smallest-contributing-k", s.get_normalized_rank_error(pmf == 1), Sk::get_normalized_rank_error((uint16_t)min_k, pmf == 1)); }
   static bool retained_exact(const Sk&, uint64_t, uint64_t&) { return false; }
 };
 template<class T, class C> struct ReqFam {
@@ -103,7 +103,20 @@ template<class T, class C> struct ReqFam {
     }
   }
   static uint64_t retained_bound(const Sk& s, uint64_t) { uint64_t b = 0; for (size_t l = 0; l < s.compactors_.size(); ++l) b += s.compactors_[l].get_nom_capacity(); return b; }
-  static void check_published_error(const Sk&, int, mc::Ctx&) {}
+  // REQ publishes rank bounds per query; where it publishes lb == ub (the region it declares exact, at the accurate end) the rank
+  // it returns must be the true one -- on every outcome of the coins, not on average
+  static void check_published_error(const Sk& s_in, int, const std::vector<T>& model_in, const std::vector<T>& grid, mc::Ctx& c) {
+    if (s_in.is_empty()) return;
+    const Sk s(s_in);   // queries build the cached sorted view: observe a copy (live states are cloned and compared by canon)
+    std::vector<T> model = model_in; std::sort(model.begin(), model.end(), C());
+    const double n = (double)model.size();
+    for (size_t g = 0; g < grid.size(); ++g) for (int incl = 0; incl < 2; ++incl) {
+      const double est = s.get_rank(grid[g], incl == 1);
+      if (s.get_rank_lower_bound(est, 3) != s.get_rank_upper_bound(est, 3)) continue;
+      const double truth = (double)(incl ? std::upper_bound(model.begin(), model.end(), grid[g], C()) - model.begin() : std::lower_bound(model.begin(), model.end(), grid[g], C()) - model.begin()) / n;
+      c.ok("rank-published-as-exact-is-exact", std::fabs(est - truth) <= 1e-12, "get_rank(" + Dom<T>::s(grid[g]) + (incl ? ", inclusive" : ", exclusive") + ") = " + str(est) + " with lower bound == upper bound, true rank " + str(truth));
+    }
+  }
   static bool retained_exact(const Sk&, uint64_t, uint64_t&) { return false; }
 };
 template<class T, class C> struct ClassicFam {
@@ -133,7 +146,7 @@ template<class T, class C> struct ClassicFam {
     }
   }
   static uint64_t retained_bound(const Sk& s, uint64_t n) { uint64_t e; retained_exact(s, n, e); return e; }
-  static void check_published_error(const Sk& s, int, mc::Ctx& c) { for (int pmf = 0; pmf < 2; ++pmf) c.eq("published-error-is-for-k", s.get_normalized_rank_error(pmf == 1), Sk::get_normalized_rank_error(s.get_k(), pmf == 1)); }
+  static void check_published_error(const Sk& s, int, const std::vector<T>&, const std::vector<T>&, mc::Ctx& c) { for (int pmf = 0; pmf < 2; ++pmf) c.eq("published-error-is-for-k", s.get_normalized_rank_error(pmf == 1), Sk::get_normalized_rank_error(s.get_k(), pmf == 1)); }
   static bool retained_exact(const Sk& s, uint64_t n, uint64_t& e) { // documented: base buffer n mod 2k, one k-sized level per set bit of n/2k
     uint64_t k2 = 2ull * s.k_; e = n % k2; uint64_t p = n / k2; while (p) { if (p & 1) e += s.k_; p >>= 1; } return true;
   }
@@ -403,7 +416,7 @@ struct QuantSys {
     c.rep.outcome(std::string(Fam::fam()) + (exact ? "|exact" : "|estimating") + "|levels" + str(lv.empty() ? 0 : (int)std::log2((double)lv.back().second)));
   }
   void check(State& st, mc::Ctx& c) {
-    if (check_published) for (size_t i = 0; i < st.slots.size(); ++i) if (st.slots[i].sk && !st.slots[i].model.empty()) Fam::check_published_error(*st.slots[i].sk, st.slots[i].min_k, c);   // C08: the error a sketch publishes
+    if (check_published) for (size_t i = 0; i < st.slots.size(); ++i) if (st.slots[i].sk && !st.slots[i].model.empty()) Fam::check_published_error(*st.slots[i].sk, st.slots[i].min_k, st.slots[i].model, query_grid(), c);   // C08: the error a sketch publishes
     if (light_check) return;
     for (size_t i = 0; i < st.slots.size(); ++i) if (st.slots[i].sk) check_slot(*st.slots[i].sk, st.slots[i].model, c);
   }
